@@ -245,6 +245,20 @@ CHECKS.update({
     ),
 })
 
+CHECKS.update({
+    "C19": (
+        "generated DAGs with controlled sharing x random handler tables; oracle = naive recursive reference implementations (own structural key, own MRO dispatch)",
+        "Hypothesis-generated expression DAGs (shared objects, equal copies, deep chains, wide tensors) and random handler "
+        "tables instantiated as fresh MultiFunction, Transformer and DAGTraverser classes (post-order and cut-off handlers, "
+        "with and without catch-all, several objects per case, all classes sharing one qualified name): unique/plain "
+        "pre/post traversals, cut-off traversal and terminal traversal against the reference node sets and orders; "
+        "map_expr_dag/map_expr_dags (compress on/off, shared caches), direct dispatch, Transformer.visit with variable "
+        "rules and DAGTraverser results against recursive tree application.",
+        "Trusts the harness' structural key and reference recursion.",
+        "4/C19",
+    ),
+})
+
 NOT_YET = {}
 
 
